@@ -151,10 +151,9 @@ func parseWildcardConstraint(operator, version string) ([]*constraint, error) {
 	}
 
 	if operator == "!=" {
-		// !=1.2.* means <1.2.0 or >=1.3.0
+		// !=1.2.* means <1.2 or >=1.3; kept as one constraint because a range is a conjunction
 		return []*constraint{
-			{operator: "<", version: lowerBound},
-			{operator: ">=", version: upperBound},
+			{operator: "!=*", version: lowerBound, upper: upperBound},
 		}, nil
 	}
 
@@ -181,6 +180,7 @@ func (pr *VersionRange) Contains(version *Version) bool {
 type constraint struct {
 	operator string
 	version  string
+	upper    string // exclusive upper bound of the excluded prefix, for "!=*" only
 }
 
 // matches checks if the given version matches this constraint
@@ -194,6 +194,14 @@ func (c *constraint) matches(version *Version) bool {
 	constraintVersion, err := e.NewVersion(c.version)
 	if err != nil {
 		return false
+	}
+
+	if c.operator == "!=*" {
+		upperVersion, err := e.NewVersion(c.upper)
+		if err != nil {
+			return false
+		}
+		return version.Compare(constraintVersion) < 0 || version.Compare(upperVersion) >= 0
 	}
 
 	comparison := version.Compare(constraintVersion)
